@@ -3,10 +3,17 @@ from __future__ import annotations
 
 from .ref_sem import AModel, Lang
 
-PLAIN = ['srv', 'db', 'pc', 'n', 'gw', 'fw', 'alice', 'bob', 'x', 'y', 'z', 'w']
+PLAIN = ['srv', 'db', 'pc', 'n', 'gw', 'fw', 'alice', 'bob', 'x', 'y', 'z', 'w', 'web', 'web_prod', 'prod_db', 'db_1']
+# characters some library treats as a line break / strips / normalises (str.splitlines, str.strip, YAML, XML, NFC)
+EXOTIC = ['web\x85srv', 'a\u2028b', 'a\u2029b', 'pg\x0cbreak', 'v\x0bt', 'fs\x1cx', 'cr\rx', 'crlf\r\nx', '\ufeffbom', 'del\x7fx',
+          'nbsp\xa0', '\xa0lead', 'em\u2003', 'zw\u200bj', 'Cafe\u0301', 'Caf\xe9', '\u212b', 'x\x1f', 'bell\x07', '\tlead', 'trail\n',
+          ' ', '  ', 'a  b', 'A', 'a', 'ß', 'SS', 'ﬁ', 'fi', '\U0001f600', 'nul\x00x']
 HOSTILE = ['a:b', 'n:1', 'ünï', 'yes', 'null', '1e3', '- a', 'a: b', '#x', ' lead', 'tab\tx', '0', '~', 'on',
            'quote"s', "it's", '{}', '[x]', 'x ', 'True', '1_000', '0x10', '', 'multi\nline', '%s', 'ÅÄÖ', '12:30:00']
+XML_INVALID = set(chr(c) for c in list(range(0, 9)) + [11, 12] + list(range(14, 32)))
 DEF_VALUES = [0.0, 1.0, 1.0, 0.0, 0.5, 0.3, 0.75, 0.01]
+# next to, but not at, the two defaults
+EDGE_DEF_VALUES = [1e-9, 1e-10, 1e-7, 5e-324, 1e-12, 0.999999999, 1 - 1e-12, 0.9999999999999999, 1 - 1e-7, 0.1 + 0.2, 2.2250738585072014e-308]
 
 
 class MCfg:
@@ -21,6 +28,7 @@ class MCfg:
         self.attackers = 0.5
         self.extras = 0.1
         self.link_density = 1.0
+        self.xml_invalid_chars = True   # names may contain control characters an XML file cannot hold
         self.large = False        # the large stratum: 12-40 assets, fields with up to 12 members, long names, huge ids
         for k, v in kw.items():
             if not hasattr(self, k):
@@ -57,7 +65,7 @@ def gen_amodel(rng, lang: Lang, cfg: MCfg | None = None) -> AModel:
         used_ids.add(aid)
         r = rng.random()
         if r < cfg.hostile_names:
-            base = rng.choice(HOSTILE)
+            base = rng.choice(HOSTILE) if rng.random() < 0.6 else rng.choice([x for x in EXOTIC if cfg.xml_invalid_chars or x.isprintable() or not (set(x) & XML_INVALID)])
         else:
             base = rng.choice(PLAIN)
         if cfg.large and rng.random() < 0.15:
@@ -71,7 +79,7 @@ def gen_amodel(rng, lang: Lang, cfg: MCfg | None = None) -> AModel:
         defs = {}
         for d, dflt in lang.defenses(t).items():
             if rng.random() < 0.4:
-                defs[d] = rng.choice(DEF_VALUES)
+                defs[d] = rng.choice(DEF_VALUES) if rng.random() < 0.88 else rng.choice(EDGE_DEF_VALUES)
                 if cfg.large and rng.random() < 0.3:
                     defs[d] = rng.choice([1e-9, 0.999999999, 5e-324, 0.1 + 0.2, 1.0 - 1e-16, 0.30000000000000004])
         a = {'id': aid, 'name': name, 'type': t, 'defenses': defs, 'extras': {}}
